@@ -311,7 +311,7 @@ class MolQueryReader(object):
 
         assert tree[1][0].name == 'AtomLabel'
         if tree[1][0].name in molquery.atom_names:
-            raise RINGReaderError('Atom Label ' + tree[1][0]
+            raise RINGReaderError('Atom Label ' + tree[1][1]
                                   + ' is alreadyd declared!')
         molquery.atom_names.append(tree[1][1])
         assert tree[2][0].name == 'BondType'
